@@ -363,9 +363,10 @@ impl CallStack {
 
         let old_value = context_element.temporary_variables.get(&name).cloned();
 
-        if let Some(old_value) = &old_value {
-            Value::retain_list_origins_for_assignment(old_value.as_ref(), value.as_ref());
-        }
+        let value = match &old_value {
+            Some(old_value) => Value::retain_list_origins_for_assignment(old_value.as_ref(), value),
+            None => value,
+        };
 
         context_element.temporary_variables.insert(name, value);
 
